@@ -108,6 +108,16 @@ pub fn gen_rules_world(seed: u64) -> SupplyTrace {
                     mats.insert(k, gen::digest_of(900 + ctr, false));
                     labels.push("A-TAMPER".to_string());
                 }
+                5 if !mats.is_empty() => {
+                    // a digest cut short (a prefix of the true one) or emptied
+                    let k = mats.keys().nth(r.idx(mats.len())).unwrap().clone();
+                    if let Some(d) = mats.get_mut(&k) {
+                        let h = d.get("sha256").cloned().unwrap_or_default();
+                        let cut = if r.chance(1, 3) { 0 } else { (h.len() / 4) * 2 };
+                        d.insert("sha256".into(), h[..cut].to_string());
+                    }
+                    labels.push("A-DIGEST-PREFIX".to_string());
+                }
                 4 if !mats.is_empty() && both => {
                     // tampered in one of its two digests only
                     let k = mats.keys().nth(r.idx(mats.len())).unwrap().clone();
